@@ -147,7 +147,63 @@ class Model:
                 return val
         raise CheckerError(f'assignment to {tgt.get("kind")} at parsing.h:{line_of(node)} is not modelled')
 
+    def user_lambdas(self):
+        """lambdas declared at the top level of parse_sentence other than the two rule-cache lambdas (those have contracts): executed in place when called"""
+        if getattr(self, '_user_lambdas', None) is None:
+            out = {}
+            fn = self.ast.function('parse_sentence')
+            for st in body_of(fn).get('inner', []):
+                if st.get('kind') != 'DeclStmt':
+                    continue
+                for d in st.get('inner', []):
+                    if d.get('kind') == 'VarDecl' and d.get('name') not in ('apply_binary_rules', 'apply_unary_rules'):
+                        init = [c for c in d.get('inner', []) if c.get('kind')]
+                        lam = strip_casts(init[0]) if init else None
+                        while lam is not None and lam.get('kind') in ('CXXConstructExpr', 'MaterializeTemporaryExpr', 'ExprWithCleanups') and lam.get('inner'):
+                            lam = strip_casts(lam['inner'][0])
+                        if lam is not None and lam.get('kind') == 'LambdaExpr':
+                            out[d['name']] = lam
+            self._user_lambdas = out
+        return self._user_lambdas
+
+    def inline_lambda(self, ex, lam, args, node):
+        def find(n):
+            if isinstance(n, dict):
+                if n.get('kind') == 'CXXMethodDecl' and n.get('name') == 'operator()':
+                    return n
+                for c in n.get('inner', []) or []:
+                    r = find(c)
+                    if r is not None:
+                        return r
+            return None
+        meth = find(lam)
+        body = [c for c in lam.get('inner', []) if c.get('kind') == 'CompoundStmt']
+        if meth is None or not body:
+            raise CheckerError(f'lambda at parsing.h:{line_of(lam)} has no analysable body')
+        params = [c['name'] for c in meth.get('inner', []) if c.get('kind') == 'ParmVarDecl']
+        if len(params) != len(args):
+            raise CheckerError('lambda called with another number of arguments than it declares')
+        env = ex.cur_env
+        if getattr(ex, '_lambda_depth', 0) > 2:
+            raise CheckerError('recursive lambda')
+        saved = {k: env[k] for k in params if k in env}
+        missing = [k for k in params if k not in env]
+        env.update(dict(zip(params, args)))
+        ex._lambda_depth = getattr(ex, '_lambda_depth', 0) + 1
+        try:
+            ex.run(body[-1], env)
+            return None
+        except _Return as r:
+            return r.v
+        finally:
+            ex._lambda_depth -= 1
+            for k in missing:
+                env.pop(k, None)
+            env.update(saved)
+
     def global_ref(self, ex, name, node):
+        if name in self.user_lambdas():
+            return Abstract('user_lambda', node=self.user_lambdas()[name], name=name)
         if name == 'UINT_MAX':
             return z3.IntVal(U32 - 1)
         if name == 'depccg_verif_pop_hook':
@@ -221,6 +277,8 @@ class Model:
                     # compute_outside_probabilities establishes out(a, b) = P(a) + P(length) - P(b) only for a <= b, a < length, 1 <= b (contracts/parsing_h_helpers.py)
                     ex.oblige('defined-range', z3.And(r <= c, r < g.length, c >= 1), node, f'{obj.name}(start, end) is read where compute_outside_probabilities defines it')
                 return obj.fn(r, c)
+            if isinstance(obj, Abstract) and obj.kind == 'user_lambda':
+                return self.inline_lambda(ex, obj.node, args[1:], node)
             if isinstance(obj, Abstract) and obj.kind == 'apply_binary':
                 return Abstract('binary_results', x=args[1], y=args[2])
             if isinstance(obj, Abstract) and obj.kind == 'apply_unary':
@@ -835,6 +893,8 @@ def run_lambdas(ast):
                     if lam is not None:
                         lambdas.append((d['name'], lam))
     want = {'apply_binary_rules': 'binary_callback', 'apply_unary_rules': 'unary_callback'}
+    # other lambdas of parse_sentence are executed in place where they are called (Model.inline_lambda); the two rule-cache lambdas are verified here
+    lambdas = [(n, lam) for n, lam in lambdas if n in want]
     if sorted(n for n, _ in lambdas) != sorted(want):
         raise CheckerError(f'expected the lambdas {sorted(want)}, found {[n for n, _ in lambdas]}')
     for name, lam in lambdas:
